@@ -210,7 +210,7 @@ def gen_scenarios(ctx, table):
 
     # 3. registrations the transport's own ParseParams yields for absent / unusual parameters, including the
     #    real ingest path (RegistrationManager.NewRegistration with the repository's test subnets)
-    s = [rhex(rng, 32) for _ in range(6)]
+    s = [rhex(rng, 32) for _ in range(8)]
     objs = [
         {"secret": s[0], "transport": "prefix", "phantom": 0, "libver": 4, "params": {"kind": "absent"}},
         {"secret": s[1], "transport": "prefix", "phantom": 0, "libver": 4, "params": {"kind": "typednil"}},
@@ -218,6 +218,9 @@ def gen_scenarios(ctx, table):
         {"secret": s[3], "transport": "prefix", "libver": 4, "params": {"kind": "absent"}, "ingest": True, "gen": 2},
         {"secret": s[4], "transport": "prefix", "libver": 4, "params": {"kind": "prefix", "prefix_id": 2}, "ingest": True, "gen": 1},
         {"secret": s[5], "transport": "min", "libver": 4, "params": {"kind": "absent"}, "ingest": True, "gen": 1},
+        # states no ingest produces, but the registry can hold: params of another transport's type
+        {"secret": s[6], "transport": "min", "phantom": 1, "libver": 4, "params": {"kind": "prefix", "prefix_id": 3, "force": True}},
+        {"secret": s[7], "transport": "prefix", "phantom": 1, "libver": 4, "params": {"kind": "generic", "force": True}},
     ]
     ops = [{"op": "validate", "obj": k} for k in range(len(objs))]
     fl = []
@@ -228,8 +231,11 @@ def gen_scenarios(ctx, table):
                            "role": "own" if o["params"].get("prefix_id") == pid and o["params"]["kind"] == "prefix" else "wrongprefix"})
         else:
             fl.append({"kind": "genuine", "obj": k, "station": 0, "extra": "aa55", "role": "own"})
-    probes = [{"flight": i, "transport": objs[f["obj"]]["transport"], "phantom": -(f["obj"] + 1), "mut": {"kind": "none"}}
-              for i, f in enumerate(fl)]
+            for pid in ([0, 3] if quick else table_ids):
+                fl.append({"kind": "crafted", "obj": k, "prefix_id": pid, "label": "min", "station": 0, "extra": "aa55",
+                           "role": "mintag_as_prefix"})
+    probes = [{"flight": i, "transport": "prefix" if f["kind"] == "crafted" else objs[f["obj"]]["transport"],
+               "phantom": -(f["obj"] + 1), "mut": {"kind": "none"}} for i, f in enumerate(fl)]
     mk(objs, ops, fl, probes, name="params")
     return scs
 
@@ -414,6 +420,9 @@ def run(ctx):
     if rc != 0:
         ctx.broken("model-build", "model does not compile: " + out[-500:])
         return
+    rc, out = ctx.coq_make(["C02/Examples.vo", "C02/Refuted.vo"])
+    if rc != 0:
+        ctx.broken("proof-obligation", "non-vacuity examples / refutation witness no longer check: " + out[-500:])
     import time
     T = {"t0": time.time()}
 
